@@ -8,17 +8,20 @@ FOREIGN = {
     'down': {'*': 'unpacked_node'}, 'index': {'*': 'unpacked_node'},
 }
 def subst(T):
+    # long(ev) reads the stored offset; int(ev) reads it narrowed to 32 bits (edge_value::operator int() of the release build) - the narrowing is kept
     return [
-        (T + r'\(U->edgeval\(zmax\)\)', 'unpacked_node__edgeval_as_long(U, zmax)', D),
+        (T + r'\(U->edgeval\(zmax\)\)', 'unpacked_node__edgeval_as_long(U, zmax)' if T == 'long' else '((long)(int)unpacked_node__edgeval_as_long(U, zmax))', D),
+    ] + ([
         (r'm\.from\(k\) = U->index\(zmax\);', 'VERIF_CHOOSE_CHILD(m, k, U, zmax, index);', D),
-    ]
+        (r'm\.from\(k\) = 0;', 'VERIF_SKIP_LEVEL(m, k);', D),
+    ] if T == 'long' else [])
 def job(name, enforce, replace=(), props=('C15', 'C16'), **kw):
     d = dict(name=name, entry='h_' + name, enforce=enforce, replace=list(replace), props=list(props))
     d.update(kw)
     return d
 STUBS = ['forest__getForestWithID', 'forest__isIndexSet', 'forest__getDomain', 'minterm__getDomain', 'forest__isForRelations',
          'minterm__isForRelations', 'forest__getNumVariables', 'unpacked_node__New', 'unpacked_node__Recycle',
-         'unpacked_node__initFromNode', 'unpacked_node__getSize', 'unpacked_node__edgeval_as_long', 'unpacked_node__down',
+         'unpacked_node__initFromNode', 'forest__getNodeLevel', 'verif_skip_level', 'unpacked_node__getSize', 'unpacked_node__edgeval_as_long', 'unpacked_node__down',
          'verif_choose_child']
 UNIT = {
     'name': 'index',
@@ -43,13 +46,14 @@ UNIT = {
         'forest::getForestWithID / isIndexSet / getDomain / isForRelations / getNumVariables, minterm::getDomain / isForRelations: return ghost values',
         'unpacked_node::New/Recycle: one scratch node object',
         'unpacked_node::initFromNode(p): PRECONDITION p >= 1 (it reads the node level and address of p, unpacked_node.cc:347); yields a sparse node with 1 <= size, children and offsets in ghost arrays',
-        'unpacked_node::down(z): for a node above level 1 of an index set the child is a node (>= 1) - index sets do not skip levels (mdd2index output shape, assumed)',
+        'unpacked_node::down(z): the child lies at some level strictly below its parent (C02, assumed) - a fully reduced index set MAY skip a level (a variable with one value); forest::getNodeLevel(p) returns that ghost level',
+        'the statement "m.from(k) = 0;" of a skipped level is mapped (text_subst, must fire) to a ghost call whose PRECONDITION is that the node held lies below level k',
         'the statement "m.from(k) = U->index(zmax);" is mapped (text_subst, must fire) to a ghost call whose PRECONDITION is the search postcondition: zmax is the largest position whose offset is <= the remaining index',
     ],
     'assumptions': ['the conversion mdd2index (offsets = number of members below, stored cardinalities) is not covered: only the lookup descent'],
     'unverified_surroundings': {'C15': ['operations/mdd2index.cc (conversion, cardinalities)', 'forests/evmdd_pluslong.cc', 'dd_edge::getElement dispatch']},
     'jobs': [
         job('getElemLong', 'dd_edge__getElemLong', STUBS, loops=2, object_bits=11),
-        job('getElemInt', 'dd_edge__getElemInt', STUBS, loops=2, object_bits=11),
+        job('getElemInt', 'dd_edge__getElemInt', STUBS, loops=2, object_bits=11, defines=['IX_INT_EV']),      # forests with int edge values: the offsets fit an int
     ],
 }
